@@ -9,7 +9,8 @@
 (* Each observation is checked independently; failing clauses are printed as <<"R", "obs", index, clause>>:        *)
 (*   interp                the specification's model of Python disagrees with the interpreter (machinery, not C13) *)
 (*   ref-resolver-names    offered names # LegalKw                          (the property)                         *)
-(*   ref-resolver-signature  a non-conditional offered parameter does not carry type / default / owner of Ref     *)
+(*   ref-resolver-signature  an offered parameter does not carry type / default / owner of Ref (a Conditional one  *)
+(*                         is accepted exactly where the transcribed algorithm predicts the documented Conditional) *)
 (*   ref-parser-names, ref-parser-signature   the same for the parser's arguments                                 *)
 (*   alg                   the observation differs from the transcribed algorithm (drift when Ref agrees)          *)
 (* and <<"I", "obs", index, callable, deviation>> tells the harness which named deviation applies.                 *)
@@ -42,16 +43,17 @@ Check(k) ==
       par  == ob.parser
       resNames == {res[j].n : j \in DOMAIN res}
       parNames == {par[j].n : j \in DOMAIN par}
+      algCond == {run.ps[j].n : j \in {x \in DOMAIN run.ps : run.ps[x].d = "cond"}}   \* documented: Conditional<ast-resolver>
       RefHas(n, t, d) == \E x \in ref : x.n = n /\ x.t = t /\ x.d = d
   IN /\ PrintT(<<"I", "obs", k, call, dev>>)
      /\ (seen = spec) \/ Say(k, "interp")
      /\ (~call \/ ~ob.observed \/ (resNames = legal /\ NoDup(res))) \/ Say(k, "ref-resolver-names")
      /\ (~call \/ ~ob.observed \/ resNames # legal
-           \/ \A d \in OfferOf(res) : d.d = "cond" \/ d \in ref) \/ Say(k, "ref-resolver-signature")
+           \/ \A d \in OfferOf(res) : d \in ref \/ (d.d = "cond" /\ (d.n \in algCond \/ dev # "-"))) \/ Say(k, "ref-resolver-signature")
      /\ (~call \/ ~ob.observed \/ res = run.ps) \/ Say(k, "alg")
      /\ (~call \/ ~ob.parsed \/ (parNames = legal /\ NoDup(par))) \/ Say(k, "ref-parser-names")
      /\ (~call \/ ~ob.parsed \/ parNames # legal
-           \/ \A j \in DOMAIN par : par[j].d = "cond"
+           \/ \A j \in DOMAIN par : (par[j].d = "cond" /\ (par[j].n \in algCond \/ dev # "-"))
                  \/ (IF par[j].d = "dflt" THEN [o |-> par[j].o, n |-> par[j].n, t |-> par[j].t, d |-> "dflt"] \in ref   \* a default identifies its owner
                      ELSE RefHas(par[j].n, par[j].t, par[j].d))) \/ Say(k, "ref-parser-signature")
 
